@@ -91,8 +91,8 @@ func (fg *FuncGen) instr(in ssa.Instruction) {
 			fg.obl("safe.index", "", v.Pos(), safetyTags, fmt.Sprintf("(and (<= 0 %s) (< %s %d))", i.S, i.S, u.Len()), "array index in range")
 			fg.define(v, "(select "+x.S+" "+i.S+")")
 		case *types.Basic: // string
-			fg.obl("safe.index", "", v.Pos(), safetyTags, fmt.Sprintf("(and (<= 0 %s) (< %s (str.len %s)))", i.S, i.S, x.S), "string index in range")
-			fg.define(v, "(str.at "+x.S+" "+i.S+")")
+			fg.obl("safe.index", "", v.Pos(), safetyTags, fmt.Sprintf("(and (<= 0 %s) (< %s (gs.len %s)))", i.S, i.S, x.S), "string index in range")
+			fg.define(v, "(gs.at "+x.S+" "+i.S+")")
 		default:
 			fg.unsupp("index on %s", v.X.Type())
 			fg.declare(v)
@@ -248,7 +248,15 @@ func (fg *FuncGen) binop(v *ssa.BinOp) {
 			op := map[token.Token]string{token.ADD: "+", token.SUB: "-", token.MUL: "*"}[v.Op]
 			raw := "(" + op + " " + x.S + " " + y.S + ")"
 			half, signed := halfRange(v.Type())
-			if signed && half == "9223372036854775808" && v.Op != token.MUL {
+			smallConst := func(x ssa.Value) bool {
+				c, ok := x.(*ssa.Const)
+				if !ok || c.Value == nil {
+					return false
+				}
+				s := c.Value.ExactString()
+				return s == "1" || s == "-1" || s == "2" || s == "-2" || s == "0"
+			}
+			if signed && half == "9223372036854775808" && (v.Op != token.MUL || smallConst(v.X) || smallConst(v.Y)) {
 				term = "(wrap64 " + raw + ")"
 			} else if signed {
 				term = "(wrapmod " + raw + " " + half + ")"
@@ -261,7 +269,8 @@ func (fg *FuncGen) binop(v *ssa.BinOp) {
 			if v.Op == token.QUO {
 				term = "(tdiv " + x.S + " " + y.S + ")"
 				if signed {
-					term = "(wrapmod " + term + " " + half + ")"
+					// the only overflowing quotient is MinT / -1, which wraps to MinT
+					term = "(ite (and (= " + y.S + " (- 1)) (= " + x.S + " (- " + half + "))) " + x.S + " " + term + ")"
 				}
 			} else {
 				term = "(trem " + x.S + " " + y.S + ")"
@@ -305,17 +314,17 @@ func (fg *FuncGen) binop(v *ssa.BinOp) {
 		case token.NEQ:
 			term = "(not " + fg.strEq(v.X, v.Y, x, y) + ")"
 		case token.LSS:
-			term = "(str.lt " + x.S + " " + y.S + ")"
+			term = "(gs.lt " + x.S + " " + y.S + ")"
 		case token.GTR:
-			term = "(str.lt " + y.S + " " + x.S + ")"
+			term = "(gs.lt " + y.S + " " + x.S + ")"
 		case token.LEQ:
-			term = "(not (str.lt " + y.S + " " + x.S + "))"
+			term = "(not (gs.lt " + y.S + " " + x.S + "))"
 		case token.GEQ:
-			term = "(not (str.lt " + x.S + " " + y.S + "))"
+			term = "(not (gs.lt " + x.S + " " + y.S + "))"
 		case token.ADD:
 			t := fg.declare(v)
-			fg.emit("(assert (and (= (slo %s) 0) (= (str.len %s) (+ (str.len %s) (str.len %s))) (= (blen (sbase %s)) (shi %s))))", t.S, t.S, x.S, y.S, t.S, t.S)
-			fg.emit("(assert (= %s (str.concat %s %s)))", t.S, x.S, y.S)
+			fg.emit("(assert (and (= (slo %s) 0) (= (gs.len %s) (+ (gs.len %s) (gs.len %s))) (= (blen (sbase %s)) (shi %s))))", t.S, t.S, x.S, y.S, t.S, t.S)
+			fg.emit("(assert (= %s (gs.concat %s %s)))", t.S, x.S, y.S)
 			return
 		default:
 			fg.unsupp("string operator %s", v.Op)
@@ -417,7 +426,7 @@ func (fg *FuncGen) strEq(vx, vy ssa.Value, x, y TTerm) string {
 	if c, ok := vx.(*ssa.Const); ok && c.Value != nil {
 		return fg.strEqConst(y.S, constStr(c))
 	}
-	return "(str.eq " + x.S + " " + y.S + ")"
+	return "(gs.eq " + x.S + " " + y.S + ")"
 }
 
 func constStr(c *ssa.Const) string {
@@ -430,12 +439,12 @@ func constStr(c *ssa.Const) string {
 
 func (fg *FuncGen) strEqConst(x string, c string) string {
 	name := fg.fresh("seq")
-	parts := []string{fmt.Sprintf("(= (str.len %s) %d)", x, len(c))}
+	parts := []string{fmt.Sprintf("(= (gs.len %s) %d)", x, len(c))}
 	for i := 0; i < len(c); i++ {
-		parts = append(parts, fmt.Sprintf("(= (str.at %s %d) %d)", x, i, c[i]))
+		parts = append(parts, fmt.Sprintf("(= (gs.at %s %d) %d)", x, i, c[i]))
 	}
 	fg.emitDef("%s", "Bool", "(and %s)", name, strings.Join(parts, " "))
-	fg.emit("(assert (= %s (str.eq %s %s)))", name, x, fg.g.StrConst(c))
+	fg.emit("(assert (= %s (gs.eq %s %s)))", name, x, fg.g.StrConst(c))
 	return name
 }
 
@@ -549,11 +558,11 @@ func (fg *FuncGen) convert(v *ssa.Convert) {
 		fg.define(v, "("+strings.ToLower(to)+".ofint "+x.S+")")
 	case from == "Int" && to == "Str":
 		t := fg.declare(v)
-		fg.assume("(and (= (slo " + t.S + ") 0) (>= (str.len " + t.S + ") 1) (<= (str.len " + t.S + ") 4) (= (blen (sbase " + t.S + ")) (shi " + t.S + ")))")
+		fg.assume("(and (= (slo " + t.S + ") 0) (>= (gs.len " + t.S + ") 1) (<= (gs.len " + t.S + ") 4) (= (blen (sbase " + t.S + ")) (shi " + t.S + ")))")
 	case from == "Slice" && to == "Str":
 		t := fg.declare(v)
-		fg.assume("(and (= (slo " + t.S + ") 0) (= (str.len " + t.S + ") (slen " + x.S + ")) (= (blen (sbase " + t.S + ")) (shi " + t.S + ")))")
-		fg.assume("(= " + t.S + " (str.ofbytes (select " + fg.famIn(fg.st, fg.g.SeqFamily("Int")) + " (sref " + x.S + ")) (soff " + x.S + ") (slen " + x.S + ")))")
+		fg.assume("(and (= (slo " + t.S + ") 0) (= (gs.len " + t.S + ") (slen " + x.S + ")) (= (blen (sbase " + t.S + ")) (shi " + t.S + ")))")
+		fg.assume("(= " + t.S + " (gs.ofbytes (select " + fg.famIn(fg.st, fg.g.SeqFamily("Int")) + " (sref " + x.S + ")) (soff " + x.S + ") (slen " + x.S + ")))")
 	case from == "Str" && to == "Slice":
 		ref := fg.alloc(v.Type())
 		f := fg.g.SeqFamily("Int")
@@ -563,8 +572,10 @@ func (fg *FuncGen) convert(v *ssa.Convert) {
 			prev = f + "!0"
 		}
 		fg.emit("(assert (forall ((r Int)) (! (=> (not (= r %s)) (= (select %s r) (select %s r))) :pattern ((select %s r)))))", ref, sym, prev, sym)
-		fg.emit("(assert (forall ((i Int)) (! (=> (and (<= 0 i) (< i (str.len %s))) (= (select (select %s %s) i) (str.at %s i))) :pattern ((select (select %s %s) i)))))", x.S, sym, ref, x.S, sym, ref)
-		fg.define(v, fmt.Sprintf("(mkslice %s 0 (str.len %s) (str.len %s))", ref, x.S, x.S))
+		fg.emit("(assert (forall ((i Int)) (! (=> (and (<= 0 i) (< i (gs.len %s))) (= (select (select %s %s) i) (gs.at %s i))) :pattern ((select (select %s %s) i)))))", x.S, sym, ref, x.S, sym, ref)
+		fg.define(v, fmt.Sprintf("(mkslice %s 0 (gs.len %s) (gs.len %s))", ref, x.S, x.S))
+		fg.g.Family("BY_src", "(Array Int Str)")
+		fg.setFam("BY_src", "(store "+fg.famIn(fg.st, "BY_src")+" "+ref+" "+x.S+")")
 	default:
 		fg.unsupp("conversion %s -> %s", from, to)
 		fg.declare(v)
@@ -608,9 +619,9 @@ func (fg *FuncGen) sliceOp(v *ssa.Slice) {
 	switch u := v.X.Type().Underlying().(type) {
 	case *types.Basic: // string
 		lo := get(v.Low, "0")
-		hi := get(v.High, "(str.len "+x.S+")")
-		fg.obl("safe.slice", "", v.Pos(), safetyTags, fmt.Sprintf("(and (<= 0 %s) (<= %s %s) (<= %s (str.len %s)))", lo, lo, hi, hi, x.S), "string slice bounds in range")
-		fg.define(v, fmt.Sprintf("(str.sub %s %s %s)", x.S, lo, hi))
+		hi := get(v.High, "(gs.len "+x.S+")")
+		fg.obl("safe.slice", "", v.Pos(), safetyTags, fmt.Sprintf("(and (<= 0 %s) (<= %s %s) (<= %s (gs.len %s)))", lo, lo, hi, hi, x.S), "string slice bounds in range")
+		fg.define(v, fmt.Sprintf("(gs.sub %s %s %s)", x.S, lo, hi))
 	case *types.Slice:
 		lo := get(v.Low, "0")
 		hi := get(v.High, "(slen "+x.S+")")
@@ -687,7 +698,7 @@ func (fg *FuncGen) makeInterface(v *ssa.MakeInterface) {
 		if c := g.valCtor(xt, x.S); c != "" {
 			if strings.HasPrefix(c, "(VStr ") {
 				if _, isConst := v.X.(*ssa.Const); !isConst {
-					fg.obl("utf8", "", v.Pos(), []string{"C11"}, "(str.aligned "+x.S+")", "string value starts and ends on code point boundaries of its text")
+					fg.obl("utf8", "", v.Pos(), []string{"C11"}, "(gs.aligned "+x.S+")", "string value starts and ends on code point boundaries of its text")
 				}
 			}
 			fg.define(v, c)
@@ -828,8 +839,8 @@ func (fg *FuncGen) lookup(v *ssa.Lookup) {
 			fg.assumeLoaded(t, u.Elem(), &Ptr{Kind: "obj", Ref: x.S})
 		}
 	case *types.Basic: // string index
-		fg.obl("safe.index", "", v.Pos(), safetyTags, fmt.Sprintf("(and (<= 0 %s) (< %s (str.len %s)))", i.S, i.S, x.S), "string index in range")
-		fg.define(v, "(str.at "+x.S+" "+i.S+")")
+		fg.obl("safe.index", "", v.Pos(), safetyTags, fmt.Sprintf("(and (<= 0 %s) (< %s (gs.len %s)))", i.S, i.S, x.S), "string index in range")
+		fg.define(v, "(gs.at "+x.S+" "+i.S+")")
 	default:
 		fg.unsupp("lookup on %s", v.X.Type())
 		fg.declare(v)
@@ -893,7 +904,7 @@ func (fg *FuncGen) next(v *ssa.Next) {
 		card := fmt.Sprintf("(select %s %s)", fg.famIn(fg.st, cf), it.m.S)
 		fg.emit("(declare-const %s_ok Bool)", base)
 		fg.emit("(declare-const %s_k Str)", base)
-		fg.assume("(str.wf " + base + "_k)")
+		fg.assume("(gs.wf " + base + "_k)")
 		fg.emitDef("%s_v", "%s", "(select (select %s %s) (skey %s_k))", base, g.SortOf(it.mapT.Elem()), fg.famIn(fg.st, vf), it.m.S, base)
 		// semantics of map iteration: an arbitrary key not yet visited; done exactly when all keys were visited
 		fg.assume(fmt.Sprintf("(and (<= 0 %s) (<= %s %s))", n, n, card))
@@ -908,12 +919,12 @@ func (fg *FuncGen) next(v *ssa.Next) {
 	case "string":
 		pos := fg.famIn(fg.st, it.nFam)
 		s := it.m.S
-		fg.emitDef("%s_ok", "Bool", "(< %s (str.len %s))", base, pos, s)
+		fg.emitDef("%s_ok", "Bool", "(< %s (gs.len %s))", base, pos, s)
 		fg.emitDef("%s_k", "Int", "%s", base, pos)
 		fg.emit("(declare-const %s_v Int)", base)
 		fg.emit("(declare-const %s_sz Int)", base)
-		fg.assume(fmt.Sprintf("(and (<= 0 %s) (<= %s (str.len %s)))", pos, pos, s))
-		fg.assume(fmt.Sprintf("(decode.post (str.sub %s %s (str.len %s)) %s_v %s_sz)", s, pos, s, base, base))
+		fg.assume(fmt.Sprintf("(and (<= 0 %s) (<= %s (gs.len %s)))", pos, pos, s))
+		fg.assume(fmt.Sprintf("(decode.post (gs.sub %s %s (gs.len %s)) %s_v %s_sz)", s, pos, s, base, base))
 		fg.val[v] = []TTerm{{S: base + "_ok", Sort: "Bool"}, {S: base + "_k", Sort: "Int"}, {S: base + "_v", Sort: "Int"}}
 		fg.setFam(it.nFam, fmt.Sprintf("(ite %s_ok (+ %s %s_sz) %s)", base, pos, base, pos))
 	}
